@@ -10,7 +10,6 @@ import (
 
 func (rt *runtime) cmplEvaluateNodeExpression(node nodeExpression) Value {
 	verifStep(rt)
-	rt.halting = false
 	// Allow interpreter interruption
 	// If the Interrupt channel is nil, then
 	// we avoid runtime.Gosched() overhead (if any)
